@@ -4199,6 +4199,7 @@ class mulgrid(object):
         segment_data, min_segment_length = parse_segments(segment_filename, bottom_layer)
 
         justfn = [str.rjust, str.ljust][justify == 'l']
+        chars = uniqstring(chars)
         geo = mulgrid(convention = convention, atmos_type = 2, block_order = block_order)
 
         # Add nodes:
@@ -4288,6 +4289,7 @@ class mulgrid(object):
         """Creates a mulgrid geometry from a Layermesh mesh."""
 
         justfn = [str.rjust, str.ljust][justify == 'l']
+        chars = uniqstring(chars)
         geo = mulgrid(convention = convention, atmos_type = atmosphere_type,
                       block_order = block_order)
 
